@@ -206,10 +206,12 @@ func runHTTP(reqs []HTTPReq) (v verdict, shapes string) {
 			do("GET", "/ping", "", nil)
 		}
 	}
+	// entries named OFFSET are left out: which offset entries balancing (or a stored offset configuration)
+	// produces depends on amounts, and a request passes several such stages
 	var out []string
 	for _, f := range repo.FindAllFiles() {
 		if f != nil {
-			out = append(out, encodeFile(f))
+			out = append(out, encodeFileOpt(f, true))
 		}
 	}
 	sort.Strings(out)
